@@ -72,6 +72,8 @@ fn run(id: &str, tier: Tier, replay: Option<String>) -> i32 {
         "C15" => checks::c15::main(tier, replay),
         "C16" => checks::c16::main(tier, replay),
         "C17" => checks::c17::main(tier, replay),
+        "C18" => checks::c18::main(tier, replay),
+        "C19" => checks::c19::main(tier, replay),
         "C20" => checks::c20::main(tier, replay),
         _ => {
             eprintln!("unknown property {}", id);
